@@ -3,7 +3,9 @@
    schedule followed by the harness' own round-robin drain), and per coarse step what was observed:
    the outcome (site reached / finished / blocked / skipped), which blocked threads got
    unblocked by it, and the per-page occupancy counters that the threads bump inside their
-   critical sections.  Here the faithful model (Model/PageLocks.v, fx = false) is run with
+   critical sections, and at the end LockStats and the sizes of the two lock tables
+   (debug_entry_counts).  Here the faithful model (Model/PageLocks.v, fx = true: the cleanup as
+   repaired by /repo d1af26b) is run with
    [run_until] on the same programs and schedule and must predict exactly these observations;
    [spec_ok] judges the observations alone.  Definitions only. *)
 From Coq Require Import ZArith List Bool Arith.
@@ -24,7 +26,8 @@ Inductive oc := Oc (k writers readers : Z).     (* occupancy counters of page k 
 Inductive bl := Bl (t k : Z) (w : bool).         (* thread t is blocked in page_write (w) / page_read of page k *)
 Inductive stepobs := SO (t out : Z) (woke : list wk) (occ : list oc).
 Inductive fin :=
-| FComplete (acq cont tacq : Z) (blocked : list bl)   (* ran until nobody can move; LockStats; who is still blocked on what *)
+| FComplete (acq cont tacq : Z) (blocked : list bl) (npage ntable : Z)
+    (* ran until nobody can move; LockStats; who is still blocked on what; entries left in the page / table lock maps *)
 | FTrunc.                                                          (* observation stopped (two threads blocked at once: wake-up order is up to parking_lot) *)
 Inductive case := Case (progs : list (list cop)) (steps : list stepobs) (f : fin).
 
@@ -106,12 +109,13 @@ Definition start (progs : list (list cop)) : St := init (map (map op_of) progs).
 Definition model_agrees (c : case) : bool :=
   match c with
   | Case progs steps f =>
-      let '(s, ok) := simulate false steps (start progs) in
+      let '(s, ok) := simulate true steps (start progs) in
       ok && match f with
             | FTrunc => true
-            | FComplete a ct ta bl =>
+            | FComplete a ct ta bl np nt =>
                 (s_acq (sh s) =? a) && (s_cont (sh s) =? ct) && (s_tacq (sh s) =? ta) &&
-                list_eqb blk_eqb (blocked_of s) bl && quiescent s
+                list_eqb blk_eqb (blocked_of s) bl && quiescent s &&
+                (Z.of_nat (length (s_map (sh s))) =? np) && (Z.of_nat (length (s_tbl (sh s))) =? nt)
             end
   end.
 
@@ -139,16 +143,15 @@ Definition spec_ok (c : case) : bool :=
       forallb (fun st => occ_ok (so_occ st)) steps &&
       match f with
       | FTrunc => true
-      | FComplete _ _ _ bl => blocked_justified (last_occ steps []) bl
+      | FComplete _ _ _ bl np nt =>
+          blocked_justified (last_occ steps []) bl &&
+          (* all guards dropped => both lock tables are empty *)
+          match bl with [] => (np =? 0) && (nt =? 0) | _ => true end
       end
   end.
 
-(* finding class 1: in the model's run of this very schedule a cleanup removed, by key, a map entry
-   that some thread still references (ghost flag s_bad) *)
-Definition known_class (c : case) : Z :=
-  match c with
-  | Case progs steps f => let '(s, _) := simulate false steps (start progs) in if s_bad (sh s) then 1 else 0
-  end.
+(* no recorded finding is open any more (F-C36-1 fixed by /repo d1af26b) *)
+Definition known_class (c : case) : Z := 0.
 
 Fixpoint failures_from (i : Z) (cs : list case) : list (Z * bool * bool * Z) :=
   match cs with
